@@ -38,7 +38,8 @@ def minimums(tier):
     return {"relation.checked": 1200, "junk.files": 8000, "junk.truncation": 1000, "junk.corruption": 4000,
             "junk.edit": 300, "junk.hostile-json": 50, "mode.-a": 100, "mode.-l": 100, "mode.-n": 100, "mode.-j": 100, "mode.--plid": 30,
             "mode.--src": 30, "mode.--src-exclude": 30, "mode.-a -x": 30, "mode.-l -x": 30, "sub.relations_checked": 40,
-            "junk.nested_dir": 100, "junk.symlink_to_dir": 50}
+            "junk.nested_dir": 100, "junk.symlink_to_dir": 50, "junk.dir_named_with_extension": 30,
+            "mode.with_extension_filter": 60}
 
 
 def classify(data, cls):
@@ -225,8 +226,20 @@ def run(spec, ctx):
                     os.symlink(rng.choice(["sub%d" % rnd, os.path.join(dirty.root, "sub%d" % rnd), root]),
                                os.path.join(dirty.root, ln))
                     ctx.count("junk.symlink_to_dir")
+            # -e <extension> together with a subdirectory whose NAME carries that extension (a saved folder "x.pel")
+            exts = sorted({os.path.splitext(e.name)[1] for e in good} - {""})
+            ext_dir = rng.choice(exts) if exts and rng.random() < 0.5 else None
+            if ext_dir:
+                nm = "%s_saved%s" % (rng.choice(["0000", "zzzz", good[0].name[:5]]), ext_dir)
+                if not os.path.lexists(os.path.join(dirty.root, nm)):
+                    e = dirs.gen_dir_model(rng, u, 1, reg=reg)[0]
+                    dirty.add(dirs.Entry("%s/%s" % (nm, e.name), e.pel, e.data, junk=True))
+                    ctx.count("junk.dir_named_with_extension")
             for argv in modes:
                 a = list(argv)
+                if ext_dir and a[0] != "-j" and rng.random() < 0.6:
+                    a += ["-e", ext_dir]
+                    ctx.count("mode.with_extension_filter")
                 if a[0] == "--plid":
                     a.insert(1, "%08X" % target.pel.plid)
                 elif a[0] == "--src":
